@@ -99,6 +99,64 @@ Definition predicted_run (cfg : C06_Model.config) (ss : list suite) (cl sv : boo
     end
   end.
 
+(* ---------- a run restricted with --run / --skip (the "slices" of the quick tier) ---------- *)
+(* filter.accept on a test case = C08_Model.accept on its name (parsePatterns gives nil for an empty
+   list, which is how C08_Model.accept reads []).  `selector` is that function with the two tries built
+   once per pattern list instead of once per name (selector_accept: the same function). *)
+Definition selector (rs sk : list bytes) : bytes -> bool :=
+  let tr := C08_Model.build rs in
+  let ts := C08_Model.build sk in
+  fun name =>
+    (match rs with [] => true | _ => C08_Model.match_pattern tr name end)
+    && (match sk with [] => true | _ => negb (C08_Model.match_pattern ts name) end).
+
+(* the loops of run() over the groups G = casesByServer with
+     testCases = filter.apply(filterGRPCImplTestCases(casesByServer[..]))  *)
+Definition batches_sel (f : bytes -> bool) (cl sv : bool) (G : list (inst * list perm)) : list perm :=
+  flat_map (fun ci =>
+  flat_map (fun si =>
+  flat_map (fun g => filter (fun p => f (p_name p)) (grpc_filter ci si (snd g))) G) (peers sv)) (peers cl).
+
+Definition executed_sel (rs sk : list bytes) (cl sv : bool) (lib : list perm) : list perm :=
+  batches_sel (selector rs sk) cl sv (group_cases lib).
+
+(* the prediction of a restricted run, given the groups and the names of allPermutations: pr_names are
+   the names really sent; pr_checked stays the list of ALL permutations (every pattern list is validated
+   against it); the second component is filteredTestCount, the total newResults is told (counted over
+   allPermutations with filter.accept). *)
+Definition slice_view (G : list (inst * list perm)) (chk : list bytes) (nlib : nat) (cl sv : bool)
+           (ps : list bytes) (sel : list bytes * list bytes) : prediction * nat :=
+  let f := selector (fst sel) (snd sel) in
+  let names := map p_name (batches_sel f cl sv G) in
+  (mkPred names chk (filter (kf_marks ps) names) nlib (length G), length (filter f chk)).
+
+(* several restricted runs of one configuration (the library is built once).  Name distinctness is
+   decided on the unrestricted run. *)
+Definition predicted_slices (cfg : C06_Model.config) (ss : list suite) (cl sv : bool) (ps : list bytes)
+           (sels : list (list bytes * list bytes)) : pres (list (prediction * nat)) :=
+  match C06_Model.parse_config cfg with
+  | C06_Model.Err => Bad EConfig
+  | C06_Model.Ok cs =>
+    match new_library ss (map conv cs) (run_mode cl sv) with
+    | Err => Bad ELibrary
+    | Ok lib =>
+      if distinct_names (map p_name (executed cl sv lib))
+      then let G := group_cases lib in
+           let chk := map p_name (all_permutations cl sv lib) in
+           let nlib := length lib in
+           Good (map (slice_view G chk nlib cl sv ps) sels)
+      else Bad EAmbiguousNames
+    end
+  end.
+
+Definition predicted_slice (cfg : C06_Model.config) (ss : list suite) (cl sv : bool) (ps rs sk : list bytes)
+  : pres (prediction * nat) :=
+  match predicted_slices cfg ss cl sv ps [(rs, sk)] with
+  | Good [x] => Good x
+  | Good _ => Bad EConfig      (* unreachable: one selection in, one prediction out *)
+  | Bad e => Bad e
+  end.
+
 (* ---------- the verdict of a run in which every sent case got an outcome ---------- *)
 (* the validation block of run() with only --known-failing given *)
 Definition patterns_ok (ps chk : list bytes) : bool :=
@@ -122,6 +180,16 @@ Definition run_status (ps chk names : list bytes) (out : bytes -> C04_Model.res)
 Definition run_ok (ps chk names : list bytes) (out : bytes -> C04_Model.res) : bool :=
   patterns_ok ps chk && run_verdict ps names out.
 
+(* the same with --run / --skip given: their patterns are validated too (against allPermutations) *)
+Definition patterns_ok_sel (ps rs sk chk : list bytes) : bool :=
+  match C08_Model.run_checks ps [] rs sk chk with None => true | Some _ => false end.
+
+Definition slice_status (ps rs sk chk names : list bytes) (out : bytes -> C04_Model.res) : N :=
+  if negb (patterns_ok_sel ps rs sk chk) then 2 else if run_verdict ps names out then 0 else 1.
+
+Definition slice_ok (ps rs sk chk names : list bytes) (out : bytes -> C04_Model.res) : bool :=
+  patterns_ok_sel ps rs sk chk && run_verdict ps names out.
+
 (* ---------- case decoding / result encoding (extracted glue) ---------- *)
 (* outcome codes: absent = passed; 1 assertion failure; 2 client error result; 3 set-up error;
    4 could not be run *)
@@ -144,6 +212,13 @@ Definition un_out (s : sx) : option (bytes * Z) :=
 
 Definition sx_names (l : list bytes) : sx := L (map B (sort_names l)).
 
+(* ((run patterns) (no-run patterns)) *)
+Definition un_sel (s : sx) : option (list bytes * list bytes) :=
+  match s with
+  | L [rs; sk] => do rs <- un_listof un_B rs; do sk <- un_listof un_B sk; ret (rs, sk)
+  | _ => None
+  end.
+
 Definition err_tag (e : run_err) : sx :=
   match e with
   | EConfig => sx_err "config"
@@ -151,8 +226,27 @@ Definition err_tag (e : run_err) : sx :=
   | EAmbiguousNames => sx_err "ambiguous-names"
   end.
 
-(* ("c01.run" id cl sv features includes excludes (suites) (patterns) ((name-suffix code)...))
-     -> (ok (sent names, sorted) (marked names, sorted) |lib| |groups| |allPermutations| status) | (err tag) *)
+(* ("c01.run" id cl sv features includes excludes (suites) (patterns) ((name-suffix code)...) [(run) (no-run)])
+     -> (ok (sent names, sorted) (marked names, sorted) |lib| |groups| |allPermutations| filteredTestCount status)
+        | (err tag) *)
+Definition c01_run_answer cl sv cfg ss ps (outs : list (bytes * Z)) : sx :=
+  match predicted_run cfg ss cl sv ps with
+  | Bad e => err_tag e
+  | Good pr =>
+    L [ B (bs "ok"); sx_names (pr_names pr); sx_names (pr_marked pr);
+        sx_nat (pr_lib pr); sx_nat (pr_groups pr); sx_nat (length (pr_checked pr)); sx_nat (length (pr_checked pr));
+        sx_N (run_status ps (pr_checked pr) (pr_names pr) (fun n => code_res (assoc outs n))) ]
+  end.
+
+Definition c01_slice_answer cl sv cfg ss ps rs sk (outs : list (bytes * Z)) : sx :=
+  match predicted_slice cfg ss cl sv ps rs sk with
+  | Bad e => err_tag e
+  | Good (pr, total) =>
+    L [ B (bs "ok"); sx_names (pr_names pr); sx_names (pr_marked pr);
+        sx_nat (pr_lib pr); sx_nat (pr_groups pr); sx_nat (length (pr_checked pr)); sx_nat total;
+        sx_N (slice_status ps rs sk (pr_checked pr) (pr_names pr) (fun n => code_res (assoc outs n))) ]
+  end.
+
 Definition run_c01_run (args : list sx) : sx :=
   or_bad (match args with
   | [cl; sv; fe; inc; exc; ss; ps; outs] =>
@@ -161,16 +255,18 @@ Definition run_c01_run (args : list sx) : sx :=
     do ss <- un_listof un_suite ss;
     do ps <- un_listof un_B ps;
     do outs <- un_listof un_out outs;
-    ret (match predicted_run cfg ss cl sv ps with
-         | Bad e => err_tag e
-         | Good pr =>
-           L [ B (bs "ok"); sx_names (pr_names pr); sx_names (pr_marked pr);
-               sx_nat (pr_lib pr); sx_nat (pr_groups pr); sx_nat (length (pr_checked pr));
-               sx_N (run_status ps (pr_checked pr) (pr_names pr) (fun n => code_res (assoc outs n))) ]
-         end)
+    ret (c01_run_answer cl sv cfg ss ps outs)
+  | [cl; sv; fe; inc; exc; ss; ps; outs; rs; sk] =>
+    do cl <- un_bool cl; do sv <- un_bool sv;
+    do cfg <- C06_Model.un_config fe inc exc;
+    do ss <- un_listof un_suite ss;
+    do ps <- un_listof un_B ps;
+    do outs <- un_listof un_out outs;
+    do rs <- un_listof un_B rs; do sk <- un_listof un_B sk;
+    ret (c01_slice_answer cl sv cfg ss ps rs sk outs)
   | _ => None end).
 
-(* ("c01.real" id run-name cl sv config-text (patterns) features includes excludes (suites)):
+(* ("c01.real" id run-name cl sv config-text (patterns) features includes excludes (suites) [(((run) (no-run))...)]):
    the Go side answers from the REAL embedded suites and the config text; the model from the
    dumped encodings.  Same observable, without the status (the status of the real runs is
    what the execution decides). *)
@@ -185,8 +281,25 @@ Definition run_c01_real (args : list sx) : sx :=
          | Bad e => err_tag e
          | Good pr =>
            L [ B (bs "ok"); sx_names (pr_names pr); sx_names (pr_marked pr);
-               sx_nat (pr_lib pr); sx_nat (pr_groups pr); sx_nat (length (pr_checked pr));
+               sx_nat (pr_lib pr); sx_nat (pr_groups pr); sx_nat (length (pr_checked pr)); sx_nat (length (pr_checked pr));
                sx_bool (patterns_ok ps (pr_checked pr)) ]
+         end)
+  | [_; cl; sv; _; ps; fe; inc; exc; ss; sels] =>     (* slices: the same run under several (--run, --skip) *)
+    do cl <- un_bool cl; do sv <- un_bool sv;
+    do cfg <- C06_Model.un_config fe inc exc;
+    do ss <- un_listof un_suite ss;
+    do ps <- un_listof un_B ps;
+    do sels <- un_listof un_sel sels;
+    ret (match predicted_slices cfg ss cl sv ps sels with
+         | Bad e => err_tag e
+         | Good l =>
+           L (B (bs "ok") ::
+              map (fun x : prediction * nat => let (pr, total) := x in
+                L [ sx_names (pr_names pr); sx_names (pr_marked pr);
+                    sx_nat (pr_lib pr); sx_nat (pr_groups pr); sx_nat (length (pr_checked pr)); sx_nat total ]) l
+              ++ [L (map (fun sel : list bytes * list bytes =>
+                       sx_bool (patterns_ok_sel ps (fst sel) (snd sel)
+                                  (match l with (pr, _) :: _ => pr_checked pr | [] => [] end))) sels)])
          end)
   | _ => None end).
 
